@@ -690,39 +690,39 @@ abbrev ZEntry := String × Value × Value
 
 def insertZ (e : ZEntry) : List ZEntry → List ZEntry
   | [] => [e]
-  | x :: xs => if e.1 < x.1 then e :: x :: xs else x :: insertZ e xs
+  | x :: xs => if x.1 < e.1 then x :: insertZ e xs else e :: x :: xs
 
 def sortZ (l : List ZEntry) : List ZEntry := l.foldr insertZ []
 
 def zl (z : ZEntry) : String × Value := (z.1, z.2.1)
 def zr (z : ZEntry) : String × Value := (z.1, z.2.2)
 
-theorem insertZ_zl (e : ZEntry) : ∀ Z, (insertZ e Z).map zl = insertField (zl e) (Z.map zl)
+theorem insertZ_zl (e : ZEntry) : ∀ Z, (insertZ e Z).map zl = insertFieldFirst (zl e) (Z.map zl)
   | [] => rfl
   | x :: xs => by
-    simp only [insertZ, List.map_cons, insertField, zl]
+    simp only [insertZ, List.map_cons, insertFieldFirst, zl]
     split
-    · rfl
     · simp only [List.map_cons]; congr 1; exact insertZ_zl e xs
+    · rfl
 
-theorem insertZ_zr (e : ZEntry) : ∀ Z, (insertZ e Z).map zr = insertField (zr e) (Z.map zr)
+theorem insertZ_zr (e : ZEntry) : ∀ Z, (insertZ e Z).map zr = insertFieldFirst (zr e) (Z.map zr)
   | [] => rfl
   | x :: xs => by
-    simp only [insertZ, List.map_cons, insertField, zr]
+    simp only [insertZ, List.map_cons, insertFieldFirst, zr]
     split
-    · rfl
     · simp only [List.map_cons]; congr 1; exact insertZ_zr e xs
+    · rfl
 
 theorem mem_insertZ (e x : ZEntry) : ∀ Z, x ∈ insertZ e Z ↔ x = e ∨ x ∈ Z
   | [] => by simp [insertZ]
   | y :: ys => by
     simp only [insertZ]
     split
-    · simp
     · simp only [List.mem_cons, mem_insertZ e x ys]
       constructor
       · rintro (h | h | h) <;> simp [h]
       · rintro (h | h | h) <;> simp [h]
+    · simp
 
 theorem sortZ_zl : ∀ Z, (sortZ Z).map zl = FieldList.sort (Z.map zl)
   | [] => rfl
